@@ -235,7 +235,7 @@ func genPreIdent(r *rt.Rand) string {
 		return genNumericIdent(r)
 	}
 	for {
-		s := r.StringFrom("0123456789abcxyzABCXYZ-", 1+r.Intn(8))
+		s := r.StringFrom("0123456789abcvxyzABCVXYZ-", 1+r.Intn(8))
 		if !isAllDigits(s) {
 			return s
 		}
@@ -456,6 +456,18 @@ func runC06(c *rt.Ctx) {
 			}
 		}
 	})
+	// identifiers containing the tag letter (a helper that strips "the" v must strip only a leading one)
+	c.Serial("v-in-identifiers", func(w *rt.W) {
+		vs := []string{"", "v", "V", "dev", "de", "d", "1v", "1", "2", "v1", "rev.2", "re.2", "v.v", "vv", "av", "a", "0v0", "00v", "-v", "dev.1v", "dev.1"}
+		for i, a := range vs {
+			for j, b := range vs {
+				c06Pair(w, sem.New(1, 0, 0, a, builds[(i+j)%4]), sem.New(1, 0, 0, b, "v"), true)
+				c06Pair(w, sem.New(1, 0, 0, a, "v1.v"), sem.New(1, 0, 1, b), true)
+				w.ClassN("tag-letter-inside-identifier", 1)
+			}
+		}
+	})
+	c.Require("tag-letter-inside-identifier", 400)
 	c.Require("spec-chain-pair", 64)
 
 	nRand := c.Pick(1000000, 10000000)
